@@ -143,10 +143,12 @@ class Balancer:
         outer_aligned = Balancer._align_ast(truism)
         inner_aligned = Bool(outer_aligned.op, (Balancer._align_ast(outer_aligned.args[0]), *outer_aligned.args[1:]))
 
-        _, _, inner_aligned_canon = claripy.backends.vsa.simplify(inner_aligned).canonicalize()
-        _, _, truism_canon = claripy.backends.vsa.simplify(truism).canonicalize()
-
-        if not inner_aligned_canon.identical(truism_canon):
+        # the aligned comparison must have the same abstract truth value as the original one
+        backend = claripy.backends.vsa
+        if (backend.has_true(inner_aligned), backend.has_false(inner_aligned)) != (
+            backend.has_true(truism),
+            backend.has_false(truism),
+        ):
             log.critical(
                 "ERROR: the balancer is messing up an AST. This must be looked into. "
                 "Please submit the binary and script to the angr project, if possible. "
